@@ -6,14 +6,14 @@ use acpi_tables::aml::*;
 use acpi_tables::gas;
 use acpi_tables::Aml;
 
-#[derive(Clone, Copy, Debug, PartialEq, Eq, Hash)]
+#[derive(Clone, Copy, Debug, PartialEq, Eq, Hash, serde::Serialize, serde::Deserialize)]
 pub enum AsKind {
     Memory(u8, bool), // cacheable 0..4, read_write
     Io,
     Bus,
 }
 
-#[derive(Clone, Debug, PartialEq, Eq, Hash)]
+#[derive(Clone, Debug, PartialEq, Eq, Hash, serde::Serialize, serde::Deserialize)]
 pub enum R {
     Mem32Fixed(bool, u32, u32),
     Io(u16, u16, u8, u8),
